@@ -40,11 +40,11 @@ type exp struct {
 	seen      V
 }
 
-func okV(v V) exp      { return exp{hasObs: true, obs: v} }
-func okNone() exp      { return exp{} }
-func mustErr() exp     { return exp{mustErr: true} }
-func eitherV(v V) exp  { return exp{errOK: true, hasObs: true, obs: v} }
-func eitherNone() exp  { return exp{errOK: true} }
+func okV(v V) exp        { return exp{hasObs: true, obs: v} }
+func okNone() exp        { return exp{} }
+func mustErr() exp       { return exp{mustErr: true} }
+func eitherV(v V) exp    { return exp{errOK: true, hasObs: true, obs: v} }
+func eitherNone() exp    { return exp{errOK: true} }
 func unorderedV(v V) exp { return exp{hasObs: true, obs: v, unordered: true} }
 
 func eqV(a, b V) bool { return render(a) == render(b) }
@@ -280,7 +280,7 @@ func evalModelInner(m *mworld, o Op) exp {
 			return eitherV(nil) // missing key: the statement does not say error-or-nil
 		case mset:
 			if _, isList := key.(mlist); isList {
-				return mustErr()
+				return eitherNone() // s[unhashable]: not pinned (error on this tree); must not panic or mutate
 			}
 			_, ok := c[render(key)]
 			return eitherV(ok) // meaning of s[v] is not pinned: membership flag or an error
@@ -446,7 +446,9 @@ func evalModelInner(m *mworld, o Op) exp {
 		if s, ok := addV(t, lit(o.V)); ok {
 			return okV(s)
 		}
-		return mustErr() // list + int, ...
+		// list + int, string + int: `+` is not among the operations the statement lists, so whether this is an
+		// error or a coercion is not judged - only that it does not panic and does not change its operands
+		return eitherNone()
 	case "blist":
 		return okV(cloneV(t))
 	case "bbytes":
@@ -563,7 +565,7 @@ func evalModelInner(m *mworld, o Op) exp {
 		m.vars[o.T] = s
 		return okNone()
 	case "sortnc":
-		return mustErr() // a list holding maps has no order: an error, not a crash
+		return eitherNone() // a list holding maps has no order: an error (or any order) - never a crash
 	case "clear":
 		switch t.(type) {
 		case mlist:
@@ -617,6 +619,7 @@ func evalModelInner(m *mworld, o Op) exp {
 		}
 		e := okV(out)
 		e.hasSeen, e.seen = true, seen
+		e.errOK = strings.HasPrefix(o.F, "b:") // whether builtins are accepted as callbacks is not pinned: result or error, never a panic
 		return e
 	case "ffilter":
 		c := t.(mlist)
@@ -638,6 +641,7 @@ func evalModelInner(m *mworld, o Op) exp {
 		}
 		e := okV(out)
 		e.hasSeen, e.seen = true, seen
+		e.errOK = strings.HasPrefix(o.F, "b:")
 		return e
 	case "feach":
 		c := t.(mlist)
@@ -647,6 +651,7 @@ func evalModelInner(m *mworld, o Op) exp {
 		}
 		e := exp{} // the value of each() itself is not pinned
 		e.hasSeen, e.seen = true, seen
+		e.errOK = strings.HasPrefix(o.F, "b:")
 		return e
 
 	// ------------------------------------------------ map methods
@@ -917,8 +922,18 @@ func scriptOf(o Op) string {
 }
 
 // label is the operation class used in signatures and outcome keys: no indices, no values.
+var kindNames = map[string]string{"fmap": "map", "ffilter": "filter", "feach": "each", "sortnc": "sort[elements-without-order]",
+	"getk": "get[key]", "setk": "set[key]", "iaddk": "iadd[key]", "delk": "delete[key]", "del": "delete", "popk": "pop[wrong-type]",
+	"insertk": "insert[wrong-type]", "slicek": "slice[wrong-type]", "extendlit": "extend", "addlit": "add", "mupdlit": "update", "mupd": "update",
+	"mget": "get()", "mpop": "pop()", "msetdefault": "setdefault", "sadd": "add()", "sremove": "remove()",
+	"blist": "list()", "bbytes": "byte_slice()", "bsorted": "sorted()", "breversed": "reversed()", "bkeys": "keys()"}
+
 func label(dom string, o Op) string {
-	s := dom + "." + o.K
+	k := o.K
+	if n, ok := kindNames[k]; ok {
+		k = n
+	}
+	s := dom + "." + k
 	switch o.K {
 	case "fmap", "ffilter", "feach":
 		switch o.F {
